@@ -215,6 +215,11 @@ impl IndexHunkIter {
         }
     }
 
+    /// The number of hunks that are present and not yet read.
+    pub(crate) fn hunk_count(&self) -> usize {
+        self.hunks.len()
+    }
+
     /// Take the errors from any hunks that were skipped because they could not be read.
     pub fn take_errors(&mut self) -> Vec<Error> {
         std::mem::take(&mut self.errors)
